@@ -218,11 +218,12 @@ def cases(tier, seed):
     for which in FINALS:
         for f in firsts:
             nm = "prefix|first=%s|then %s" % ("+".join(":".join(map(str, o)) for o in f), which)
-            cs.append(Case(nm + "|L=%d" % L, history_case(L, f, which), key=nm, reset=W.world_reset, validate=0, timeout=900 if tier == "quick" else 3000, max_paths=400000))
+            Lw = 4 if tier != "quick" and which.startswith("transitive-chain") else L  # (measured: the chain finals run into the budget at 5)
+            cs.append(Case(nm + "|L=%d" % Lw, history_case(Lw, f, which), key=nm, reset=W.world_reset, validate=0, timeout=900 if tier == "quick" else 3000, max_paths=400000))
     for f, which in [([("retarget",)], "existing-human-works-for-new-org"), ([("retarget-sub",)], "existing-org-sub-org-of-new-chain"), ([("pair",)], "existing-human-works-for-new-org"), ([("chain",)], "existing-org-sub-org-of-new-chain"), ([("role",)], "new-boss-heads-new-org"), ([("create", "Org")], "new-boss-heads-new-org"),
                      ([("create", "Human"), ("role",)], "existing-human-becomes-boss-of-new-org")]:
         nm = "prefix|first=%s|then %s" % ("+".join(":".join(map(str, o_)) for o_ in f), which)
-        Lc = len(f) if f[-1][0] == "role" else L  # (the role prefixes are not extended by symbolic operations: they are costly)
+        Lc = len(f) if f[-1][0] == "role" else min(L, 4)  # (the role prefixes are not extended by symbolic operations: they are costly; one fixed + 4 free operations runs into the budget)
         cs.append(Case(nm + "|L=%d" % Lc, history_case(Lc, f, which), key=nm, reset=W.world_reset, validate=0, timeout=900 if tier == "quick" else 3000, max_paths=400000))
     return cs
 
@@ -235,6 +236,6 @@ def describe(tier):
         "followed by an assertion sequence on new instances (works_for on new / existing org, a transitive chain, members.add); a role (Boss) related to an org after an earlier role lived and died; also prefixes in which a source outlives its target (the field is re-assigned, the old target is dropped and swept) followed by relating the surviving source to a new instance; the relations among the final instances, "
         "the field values and the number of graph nodes per instance must be what the same assertions give on a fresh graph. non-trivial = every path reaches the assertion" % L,
         bounds=dict(prefix_length=L, classes="Org, Human with Member/MemberOf/WorksFor/SubOrgOf descriptors", ids="every reuse pattern"),
-        outside=["prefixes longer than %d" % L, "role-taker (Boss) assertions (covered by C15)", "threads"],
+        outside=["prefixes longer than %d" % L + ("" if tier == "quick" else " (4 for the transitive-chain assertions and for the prefixes that start with one fixed macro operation)"), "role-taker (Boss) assertions (covered by C15)", "threads"],
         assumptions=["stub: id() contract (see C13); counterexamples replayed with the real id()", "expected relations = closure of the asserted facts under the declared semantics (3 facts per scenario, written out)"],
     )
